@@ -11,6 +11,13 @@ EXTENDS JsonValue, FiniteSetsExt
 MinOK(x, b, excl) == IF excl THEN Cmp(x, b) > 0 ELSE Cmp(x, b) >= 0
 MaxOK(x, b, excl) == IF excl THEN Cmp(x, b) < 0 ELSE Cmp(x, b) <= 0
 
+\* both keywords of a pair in one schema object (drafts 6/7): {"maximum": b, "exclusiveMaximum": 2^1300} and
+\* {"minimum": b, "exclusiveMinimum": -2^1300} -- the second keyword must not disturb the first
+FarAbove == [t |-> "num", neg |-> FALSE, bits |-> <<1300>>, fl |-> FALSE]
+FarBelow == [t |-> "num", neg |-> TRUE, bits |-> <<1300>>, fl |-> FALSE]
+MaxPairOK(x, b) == MaxOK(x, b, FALSE) /\ MaxOK(x, FarAbove, TRUE)
+MinPairOK(x, b) == MinOK(x, b, FALSE) /\ MinOK(x, FarBelow, TRUE)
+
 \* multipleOf b accepts x  (b > 0):  x / b is an integer
 MultOK(x, b) == Divides(b, x)
 
